@@ -166,7 +166,7 @@ def check(repo: Repo, run: Run) -> None:
                     tgt = ast.unparse(n.target)
                     if tgt in names and any(isinstance(r, ast.Return) and "True" in ast.unparse(r) for r in i.body):
                         ok = True
-    run.ob("C09.K6", "operator_in", ok, "operator_in returns true on the first element equal to the item", ev.loc(oi))
+    run.shape("C09.K6", "operator_in", ok, "operator_in returns true on the first element equal to the item", ev.loc(oi))
     # macros
     mda = ev.func("Evaluator.member_dot_arg")
     branches = {}
